@@ -23,6 +23,8 @@ def run(c):
     for w in live:
         for cls, what, wit in w.vf:
             c.spec_violation("c-value-" + cls, what, wit)
+        for cls, what, wit in w.of:
+            if cls == "sanitizer-report": c.spec_violation("c-value-" + cls, what, wit)
         for case in w.cases:
             key = f"{w.name}|{case.fn['key']}|{case.cid}"
             nt = bool(cc.cn.kinds(["tuple"] + case.fn["dparams"] + ([case.fn["dresult"]] if case.fn["dresult"] is not None else []), set())
